@@ -359,3 +359,24 @@ package rlwe
 //@ afunc Parameters.Q
 //@   trusted accessor loop over the sub-rings: assumed to list exactly the chain of the receiver
 //@   ensures chainof(result) == chainid(p)
+
+// ---- Galois elements (property C11): powers of the generator 5 modulo NthRoot ----
+// pow(x, n) is x^n over the integers (ring/zz_contracts_verif.go, ModExp).
+//@ func Parameters.GaloisElement
+//@   property C11
+//@   let nr = p.ringQ.SubRings[0].NthRoot
+//@   requires 0 < len(p.ringQ.SubRings) && 5 < nr && nr < 1<<62
+//@   ensures result < nr && cong(result, pow(GaloisGen, (k % W) & (nr - 1)), nr)
+
+//@ func Parameters.ModInvGaloisElement
+//@   property C11
+//@   let nr = p.ringQ.SubRings[0].NthRoot
+//@   requires 0 < len(p.ringQ.SubRings) && 1 < nr && nr < 1<<62 && galEl < nr
+//@   ensures result < nr && cong(result, pow(galEl, nr - 1), nr)
+
+//@ func Parameters.GaloisElementOrderTwoOrthogonalSubgroup
+//@   property C11
+//@   let nr = p.ringQ.SubRings[0].NthRoot
+//@   requires 0 < len(p.ringQ.SubRings) && 1 < nr && p.ringType != ring.ConjugateInvariant
+//@   ensures result == nr - 1
+//@   ensures cong(result * result, 1, nr) by cong_intro((nr-1)*(nr-1), 1, nr - 2, nr)
